@@ -182,6 +182,31 @@ end Draco.Eb
 namespace Draco.Eb
 open Draco
 
+/-- `UpdatePointToAttributeIndexMapping` on the success path: map of one entry per point, every
+    entry below `np` (none stays invalid, `fix:` dcc9947), every face corner below `np` -/
+theorem pointToValueMap_ok {t : TView} {faces : Array Nat} {np : Nat} {v2d m : Array Nat}
+    (h : pointToValueMap t faces np v2d = .ok m) :
+    m.size = np ∧ (∀ p (hp : p < m.size), m[p] < np) ∧
+    (∀ k, k < 3 * t.numFaces → ∃ hk : k < faces.size, faces[k] < np) := by
+  unfold pointToValueMap at h
+  simp only [bind, Except.bind] at h
+  split at h
+  · cases h
+  · rename_i m0 hloop
+    obtain ⟨hm, hf⟩ := pointToValueLoop_ok (3 * t.numFaces) 0 _ m0 (mapOk_replicate np) hloop
+    by_cases hany : (m0.any fun x => x == inv) = true
+    · simp [hany, raise] at h
+    · simp only [hany, Bool.false_eq_true, if_false, pure, Except.pure, Except.ok.injEq] at h
+      subst h
+      refine ⟨hm.1, ?_, fun k hk => hf k (Nat.zero_le _) (by omega)⟩
+      intro p hp
+      rcases hm.2 p hp with hi | hlt
+      · exfalso
+        apply hany
+        rw [Array.any_eq_true]
+        exact ⟨p, hp, by simp [hi]⟩
+      · exact hlt
+
 theorem getBit_lt_two (r : BitReader) : (r.getBit).1 < 2 := by
   unfold BitReader.getBit
   split
